@@ -86,6 +86,12 @@ def evaluate(node, rates, extra=None):
         elif op == 'sq':
             base = x * x
         elif op == 'sqrt':
+            if x < 0:
+                # a variance that is exactly zero can come out as -1e-50 at 50 digits; anything else negative is undefined
+                if x > -mpmath.mpf(10) ** -30:
+                    x = mpmath.mpf(0)
+                else:
+                    return float('nan')
             base = mpmath.sqrt(x)
         elif op == 'lngamma':
             base = mpmath.loggamma(x)
